@@ -2,7 +2,7 @@
    Only ExtrOcamlBasic is used (bool, option, unit, list, prod, sumbool, sumor
    mapped to OCaml's); N, positive, Z, nat stay the extracted inductive types. *)
 From Coq Require Import ExtrOcamlBasic.
-From XD Require Import Model.Base Model.Ellipsis Model.Checker Model.Parser Model.Text Model.Directive Model.RunLoop Model.Runner Model.Collect Model.FS Spec.ImportResolve.
+From XD Require Import Model.Base Model.Ellipsis Model.Checker Model.Parser Model.Text Model.Directive Model.RunLoop Model.Runner Model.Collect Model.FS Spec.ImportResolve Model.Proc.
 Extraction Language OCaml.
 Extraction "../ocaml/xdmodel_core.ml"
   is_space is_linebreak is_word
@@ -20,4 +20,5 @@ Extraction "../ocaml/xdmodel_core.ml"
   has_any_code part_want part_check run anything_ran failed_line_offset failed_lineno init_state
   gather listed run_examples exit_status native_verdict pytest_verdict verdict_of_summary
   style_examples contain collect_module google_examples freeform_examples auto_examples
-  fs_of_list modname_to_modpath syspath_modname_to_modpath modpath_to_modname split_modpath normalize_modpath resolve_roots.
+  fs_of_list modname_to_modpath syspath_modname_to_modpath modpath_to_modname split_modpath normalize_modpath resolve_roots
+  ppc_enter ppc_exit run_proc.
